@@ -311,6 +311,72 @@ Proof.
   intros name. rewrite !lookup_empty. exact I.
 Qed.
 
+(** ... and the directory holds nothing but the files of its maps: three per map *)
+Definition DOnly (d : dir) (g : gmap bytes store) : Prop :=
+  forall fn, is_Some (d !! fn) -> exists name f, fn = fname name f /\ is_Some (g !! name).
+
+Lemma dir_put_only d g name m s' : DOnly d g -> DOnly (dir_put d name m) (<[name := s']> g).
+Proof.
+  intros H fn Hfn.
+  assert (Hcase : (exists f, fn = fname name f) \/ (forall f, fn <> fname name f)).
+  { destruct (decide (fn = fname name FHtx)) as [->|N1]; [left; eauto|].
+    destruct (decide (fn = fname name FKey)) as [->|N2]; [left; eauto|].
+    destruct (decide (fn = fname name FVal)) as [->|N3]; [left; eauto|].
+    right. intros [| |]; assumption. }
+  destruct Hcase as [[f ->]|Hno].
+  - exists name, f. split; [reflexivity|]. rewrite lookup_insert. eauto.
+  - rewrite dir_put_other in Hfn by exact Hno.
+    destruct (H fn Hfn) as (nm & f & -> & Hg). exists nm, f. split; [reflexivity|].
+    destruct (decide (nm = name)) as [->|Hne]; [rewrite lookup_insert; eauto|rewrite lookup_insert_ne by congruence; exact Hg].
+Qed.
+
+Lemma session_only d g name t n bk bv bh ops d' outs s' :
+  DOnly d g -> session d name t n bk bv bh ops = Ok (d', outs) -> DOnly d' (<[name := s']> g).
+Proof.
+  unfold session. intros HO H.
+  destruct (d !! fname name FHtx) as [h|], (d !! fname name FKey) as [k|], (d !! fname name FVal) as [v|]; try discriminate H.
+  - destruct (open_existing t (reopen_st k v h bk bv bh)) as [[o st1]| | |]; cbn [rbind] in H; try discriminate H.
+    destruct o as [m0|f|f]; try discriminate H.
+    destruct (io_run m0 ops) as [[m1 o1]| | |]; cbn [rbind] in H; try discriminate H.
+    injection H as <- _. apply dir_put_only. exact HO.
+  - destruct (create t n bk bv bh) as [m0| | |]; cbn [rbind] in H; try discriminate H.
+    destruct (io_run m0 ops) as [[m1 o1]| | |]; cbn [rbind] in H; try discriminate H.
+    injection H as <- _. apply dir_put_only. exact HO.
+Qed.
+
+Theorem sessions_leave_only_map_files qs : forall d g iw,
+  DRep d g -> GRep g iw -> DOnly d g -> reqs_ok g qs ->
+  exists d' g', dir_run d qs = Ok (d', snd (ideal_run iw qs)) /\ DRep d' g' /\ GRep g' (fst (ideal_run iw qs)) /\ DOnly d' g' /\
+    (forall name, is_Some (g' !! name) <-> is_Some ((fst (ideal_run iw qs)) !! name)).
+Proof.
+  induction qs as [|q qs IH]; intros d g iw HD HG HO Hok.
+  - exists d, g. cbn. split; [reflexivity|]. split; [exact HD|]. split; [exact HG|]. split; [exact HO|].
+    intros nm. pose proof (HG nm) as H. destruct (g !! nm), (iw !! nm); try destruct H; split; intros [? E]; try discriminate E; eauto.
+  - cbn [reqs_ok] in Hok. destruct Hok as (Hkt & Hn & Hops & Hsz & Hnext).
+    cbn [dir_run ideal_run fst snd].
+    pose proof (HG (q_name q)) as Hgn.
+    destruct (g !! q_name q) as [s|] eqn:Eg.
+    + destruct (iw !! q_name q) as [sp|] eqn:Ei; [|destruct Hgn]. cbn [default from_option] in *; unfold id in *.
+      rewrite <- Hkt in Hops.
+      destruct (session_on_existing d g (q_name q) s sp (q_bk q) (q_bv q) (q_bh q) (q_n q) (q_ops q) HD Eg Hgn Hops Hsz)
+        as (s' & d1 & Hrun & Hs & Hrep' & HD1).
+      rewrite Hkt in Hs. pose proof (session_only _ _ _ _ _ _ _ _ _ _ _ s' HO Hs) as HO1. rewrite Hs. cbn [rbind].
+      assert (HG1 : GRep (<[q_name q := s']> g) (<[q_name q := fst (spec_run sp (q_ops q))]> iw)).
+      { intros nm. destruct (decide (nm = q_name q)) as [->|Hne]; [rewrite lookup_insert, lookup_insert; exact Hrep'|].
+        rewrite lookup_insert_ne, lookup_insert_ne by congruence. apply HG. }
+      destruct (IH d1 _ _ HD1 HG1 HO1 (Hnext _ _ Hrun)) as (d' & g' & Hr & HD' & HG' & HO' & Hdom).
+      exists d', g'. rewrite Hr. cbn [rbind]. auto 10.
+    + destruct (iw !! q_name q) as [sp|] eqn:Ei; [destruct Hgn|]. cbn [default from_option] in *; unfold id in *.
+      destruct (session_on_new d g (q_name q) (q_kt q) (q_n q) (q_bk q) (q_bv q) (q_bh q) (q_ops q) HD Eg Hn Hops Hsz)
+        as (s' & d1 & Hrun & Hs & Hrep' & _ & HD1).
+      pose proof (session_only _ _ _ _ _ _ _ _ _ _ _ s' HO Hs) as HO1. rewrite Hs. cbn [rbind].
+      assert (HG1 : GRep (<[q_name q := s']> g) (<[q_name q := fst (spec_run ∅ (q_ops q))]> iw)).
+      { intros nm. destruct (decide (nm = q_name q)) as [->|Hne]; [rewrite lookup_insert, lookup_insert; exact Hrep'|].
+        rewrite lookup_insert_ne, lookup_insert_ne by congruence. apply HG. }
+      destruct (IH d1 _ _ HD1 HG1 HO1 (Hnext _ _ Hrun)) as (d' & g' & Hr & HD' & HG' & HO' & Hdom).
+      exists d', g'. rewrite Hr. cbn [rbind]. auto 10.
+Qed.
+
 (** ** 5. by computation: two maps whose names are equal up to the last dot ("v1.users", "v1.orders"), a third one called "v1";
     sessions interleaved; each answers from its own contents, and the directory holds nine files *)
 Definition ex_users : bytes := [118; 49; 46; 117; 115; 101; 114; 115].
@@ -333,6 +399,7 @@ Example ex_sessions :
 Proof. vm_compute. reflexivity. Qed.
 
 Print Assumptions sessions_refine_ideal_maps.
+Print Assumptions sessions_leave_only_map_files.
 Print Assumptions session_wrong_type_refused.
 Print Assumptions session_frame.
 Print Assumptions session_on_existing.
